@@ -101,3 +101,28 @@ func VFAIL_Adapt(h *rt.H) {
 	h.Assert("error-returned", err == ev.ErrInjected)
 	h.Assert("no-event-after", rec.After == 0)
 }
+
+// VFAIL_JSONNumbers (C16b): a JSON document with numbers of every syntax (integer,
+// negative, fraction, exponent, beyond int64) at top level of an array, as member
+// values and nested: the visitor fails at every event k (one-shot, string, reader,
+// two-chunk Write): its error comes back and nothing follows.
+func VFAIL_JSONNumbers(h *rt.H) {
+	doc := []byte(`[1.5,{"a":2e3,"b":-7},[-0.25,18446744073709551615,1E-2],12]`)
+	var dry ev.Recorder
+	h.Assert("dry-run-accepted", jsonCodec.parse(cloneBytes(doc), &dry) == nil)
+	k := h.Choose("failAt", 1, len(dry.Events))
+	rec := ev.Recorder{FailAt: k}
+	var err error
+	switch h.Choose("entry", 0, 2) {
+	case 0:
+		err = jsonCodec.parse(cloneBytes(doc), &rec)
+	case 1:
+		err = jsonCodec.parseString(string(doc), &rec)
+	case 2:
+		cuts := make([]bool, len(doc))
+		cuts[h.Choose("cut", 0, len(doc)-2)] = true
+		_, err = jsonCodec.parseReader(&chunkReader{doc: cloneBytes(doc), cuts: cuts}, &rec)
+	}
+	h.Assert("error-returned", err == ev.ErrInjected)
+	h.Assert("no-event-after", rec.After == 0)
+}
